@@ -57,6 +57,21 @@ class Skip(Exception):
     pass
 
 
+TRACE = None     # name -> set of outcomes of its evaluations during one read (see context_dependent)
+
+
+def _record(name, outcome):
+    if TRACE is not None:
+        TRACE.setdefault(name, set()).add(outcome)
+
+
+def context_dependent():
+    """some setting was evaluated more than once during the read and did not come out the same each time (its value
+    depends on which settings were being evaluated around it): whether the later evaluations happen at all is up to the
+    per-call value cache, the statement does not decide such reads"""
+    return TRACE is not None and any(len(v) > 1 for v in TRACE.values())
+
+
 def ev_name(E, name, active):
     """value of a reference: (found, text)"""
     if name in active:
@@ -75,7 +90,13 @@ def ev_name(E, name, active):
         raise Unres(name)
     where, val = hit
     if where == "root":
-        return ev_tmpl(E, val, active | {name})
+        try:
+            out = ev_tmpl(E, val, active | {name})
+        except (Cyc, Unres) as e:
+            _record(name, "!" + type(e).__name__)
+            raise
+        _record(name, out)
+        return out
     if where == "res" and val == "":
         # a resolver answering with the empty string: the code reads "" for a setting that is exactly this reference and
         # reports "can not resolve" inside a longer string - the statement does not decide, no expectation
@@ -94,13 +115,19 @@ def ev_tmpl(E, t, active):
             out += ev_name(E, name, active)
         else:
             _, op, nt, ot = p
+            name = None
             try:
                 name = ev_tmpl(E, nt, active)
                 v = ev_name(E, name, active) if name != "" else None
             except (Cyc, Unres):
                 v = None
-            except Skip:
-                v = ""
+            except Skip as e:
+                # the name itself is answered by a resolver with "": reads as empty here. A "" further down (inside the
+                # value of the setting this name refers to) stays undecided
+                if name is not None and e.args and e.args[0] == name and name not in E.root:
+                    v = ""
+                else:
+                    raise
             if op == ":":
                 out += v if v else ev_tmpl(E, ot, active)
             elif op == ":+":
@@ -310,15 +337,23 @@ def to_case(rng, E, refs, placement, tier):
             expect.append(None)
             continue
         try:
-            v = ev_tmpl(E, E.root[nm], frozenset())
-            if v == "" or v.strip() != v or any(ch.isdigit() for ch in v) or v in ("true", "false", "null", "on", "off", "t", "f", "T", "F") or "," in v:
+            global TRACE
+            TRACE = {}
+            try:
+                v = ev_tmpl(E, E.root[nm], frozenset())
+            finally:
+                dep = context_dependent()
+                TRACE = None
+            if dep:
+                expect.append(None)
+            elif v == "" or v.strip() != v or any(ch.isdigit() for ch in v) or v in ("true", "false", "null", "on", "off", "t", "f", "T", "F") or "," in v:
                 expect.append(None)        # re-typed / trimmed by parse.Value: model comparison only
             else:
                 expect.append({"ok": {"s": v}})
         except (Cyc, Unres):
             # a failure somewhere below default/alternative operators may be absorbed in ways that depend on the per-call
             # cache (the neighbourhood of known finding D17): only operator-free closures are decided here
-            expect.append({"anyerr": True} if not closure_has_ops(E, E.root[nm]) else None)
+            expect.append({"anyerr": True} if not closure_has_ops(E, E.root[nm]) and not dep else None)
         except Skip:
             expect.append(None)
     if rng.chance(0.5):
@@ -403,6 +438,9 @@ def gen(rng, tier):
                "opts": [opt("PathSep", "."), opt("VarExp")], "merges": [], "ropts": [opt("PathSep", "."), opt("VarExp")],
                "reads": [{"r": "get", "type": "String", "name": "s", "idx": -1}, {"r": "view"}], "repeat": 1,
                "_tag": "eval/malformed", "_nt": True, "_sig": "bad|" + b}
+
+
+fix_candidate = fix_eval_candidate
 
 
 def nontrivial(case, impl):
